@@ -58,6 +58,33 @@ CORE = {
             "cap": 400000,
         },
     },
+    "C06": {
+        "checked": ["known", "ev", "out", "subs", "binds", "csub", "cbind", "conn", "rdata", "panic", "dupout", "dupev", "resolve", "tree"],
+        "assumptions": [
+            "every discovery reply and full notification contains entity [0] with the node management feature (without it the peer's node management is wiped: a robustness input, C05)",
+            "an entity appears at most once per message; a feature's type and role are fixed per address, its description and operations vary (two versions)",
+            "a full notification: whether entities that stay get their features refreshed, and whether a notification that changes nothing is acknowledged or rejected, is not determined by the property - both outcomes are allowed",
+            "entity addresses 1, 2 and the nested 1.1 with up to four features each",
+        ],
+        "quick": {
+            "mc": [{"acts": ["connect", "disconnect", "ann"], "peers": ["p1"], "maxlen": 3},
+                   {"acts": ["ann", "sub", "bind", "lsub"], "tiny": ["ann", "sub", "bind"], "maxlen": 4, "prefix": "PrefixP1"}],
+            "gen": [{"acts": ["ann"], "maxlen": 3, "prefix": "PrefixP1"},
+                    {"acts": ["ann", "sub", "bind", "lsub", "lbind"], "tiny": ["ann", "sub", "bind"], "maxlen": 3, "prefix": "PrefixP1P2"},
+                    {"acts": ["connect", "ann"], "tiny": ["ann"], "maxlen": 3}],
+            "sim": [{"acts": DISC + ["ann", "sub", "bind", "lsub", "lbind", "entrem", "entadd"], "tiny": ["sub", "bind"], "maxlen": 20, "num": 60}],
+            "cap": 40000,
+        },
+        "thorough": {
+            "mc": [{"acts": ["connect", "disconnect", "ann"], "peers": ["p1"], "maxlen": 4},
+                   {"acts": ["ann", "sub", "bind", "lsub"], "tiny": ["ann", "sub", "bind"], "maxlen": 5, "prefix": "PrefixP1P2"}],
+            "gen": [{"acts": ["ann"], "rich": ["ann"], "maxlen": 3, "prefix": "PrefixP1"},
+                    {"acts": ["ann", "sub", "bind", "lsub", "lbind"], "tiny": ["ann", "sub", "bind"], "maxlen": 4, "prefix": "PrefixP1P2"},
+                    {"acts": ["connect", "disconnect", "ann"], "tiny": ["ann"], "maxlen": 4}],
+            "sim": [{"acts": DISC + ["ann", "sub", "bind", "lsub", "lbind", "entrem", "entadd"], "rich": ["ann"], "maxlen": 30, "num": 1500}],
+            "cap": 400000,
+        },
+    },
     "C08": {
         "checked": ["subs", "out", "ev", "ret", "panic", "dupout", "dupev", "ids"],
         "assumptions": [
